@@ -38,6 +38,11 @@ def sites (R C : Int) (op : P1) (v : BVec) (l : List (Int × Int)) : BVec := l.f
 
 def identity (R C : Int) : BVec := zeros (2 * (nQubits R C).toNat)
 
+/-- `operator(index)` read-back for an in-bounds site -/
+def operatorAt (R C : Int) (v : BVec) (r c : Int) : P1 :=
+  let f := (flatten R C r c).toNat
+  P1.ofBits (v.getD f false) (v.getD ((nQubits R C).toNat + f) false)
+
 /-- the four neighbouring sites of a plaquette, in the code's order N, S, W, E -/
 def plaquetteSites (r c : Int) : List (Int × Int) := [(r - 1, c), (r + 1, c), (r, c - 1), (r, c + 1)]
 
